@@ -175,3 +175,73 @@ pub fn sweep(_seed: u64) -> usize {
     eprintln!("admission: {} sequences, {found} mismatches", seqs.len());
     found
 }
+
+/// C17 witness: a connection that arrives after shutdown was requested must not be served. The accept loop is kept busy by a
+/// client that stalls in its PROXY header; meanwhile shutdown is requested and further clients connect (they wait in the listen
+/// backlog); then the stalled client goes away and the loop has both a pending connection and the cancelled token to choose from.
+pub fn shutdown(_seed: u64) -> usize {
+    let rt = tokio::runtime::Builder::new_multi_thread().worker_threads(2).enable_all().build().expect("rt");
+    let mut found = 0;
+    for trial in 0..12 {
+        let served = rt.block_on(async {
+            let port = std::net::TcpListener::bind("127.0.0.1:0").expect("bind").local_addr().unwrap().port();
+            let address = SocketAddr::from(([127, 0, 0, 1], port));
+            let stop = CancellationToken::new();
+            let token = stop.clone();
+            let server = tokio::spawn(async move {
+                let mut l = Listener::new(
+                    Arc::new(FixedStatusAdapter::default()),
+                    Arc::new(FixedDiscoveryAdapter::new(vec![])),
+                    Arc::new(Vec::<MetaFilterAdapter>::new()),
+                    Arc::new(AnyStrategyAdapter::new()),
+                    Arc::new(FixedAuthenticationAdapter::default()),
+                    Arc::new(FixedLocalizationAdapter::default()),
+                )
+                .with_proxy_protocol(Some(ParseConfig { include_tlvs: false, allow_v1: true, allow_v2: true }))
+                .with_connection_timeout(Duration::from_secs(3));
+                let _ = l.listen(address, token).await.map_err(|e| e.to_string());
+            });
+            let mut up = false;
+            for _ in 0..300 {
+                if let Ok(mut s) = TcpStream::connect(address).await {
+                    let _ = s.shutdown().await;
+                    up = true;
+                    break;
+                }
+                tokio::time::sleep(Duration::from_millis(10)).await;
+            }
+            if !up {
+                return 0usize;
+            }
+            tokio::time::sleep(Duration::from_millis(50)).await;
+            // the stalling client: connected, no header
+            let staller = TcpStream::connect(address).await.ok();
+            tokio::time::sleep(Duration::from_millis(100)).await;
+            stop.cancel();
+            tokio::time::sleep(Duration::from_millis(50)).await;
+            // connections that arrive after the shutdown request
+            let mut late = vec![];
+            for i in 0..6u16 {
+                let a = address;
+                late.push(tokio::spawn(async move { is_served(a, &header(&Conn::V1(if i % 2 == 0 { "203.0.113.7:50000" } else { "198.51.100.9:40000" }))).await }));
+            }
+            tokio::time::sleep(Duration::from_millis(100)).await;
+            drop(staller);
+            let mut served = 0usize;
+            for h in late {
+                if let Ok(true) = h.await {
+                    served += 1;
+                }
+            }
+            let _ = tokio::time::timeout(Duration::from_secs(8), server).await;
+            served
+        });
+        if served > 0 {
+            println!("REPRODUCED shutdown trial {trial}: {served} of 6 connections that arrived after shutdown had been requested (while the accept loop was busy with a client stalling in its PROXY header) were served");
+            found += 1;
+            break;
+        }
+    }
+    eprintln!("shutdown: {found} reproduced");
+    found
+}
